@@ -11,10 +11,13 @@ def _norm(t):
     return t.replace(" ", "")
 
 
-def classify_fill(body, field, value_ok):
+HELPER_SRC = [None]     # source text in which helper functions called by reset() are looked up (set by the stage)
+
+
+def classify_fill(body, field, value_ok, tgt=None, depth=0):
     """How does `body` (a fn body) treat the per-channel storage `self.<field>`?
     -> 'all' (every element of every channel set to an accepted value), 'partial' (a restricted range / count), 'none', 'unknown'"""
-    tgt = "self." + field
+    tgt = tgt or ("self." + field)
     verdict = "none"
     for st in body[1] + ([("expr", body[2], False, 0)] if body[2] is not None else []):
         txt = _norm(rp.show(st))
@@ -24,6 +27,20 @@ def classify_fill(body, field, value_ok):
         if e is None:
             verdict = "unknown"
             continue
+        # a helper called with the storage as its only argument: classify the helper's body with its parameter as the target
+        if e[0] == "call" and len(e[2]) == 1 and _norm(rp.show(e[2][0])) in ("&mut" + _norm(tgt), _norm(tgt)) and HELPER_SRC[0] and depth < 2:
+            hname = rp.show(e[1]).split("::")[-1]
+            try:
+                hsig, hbody, _, _ = rp.find_fn(HELPER_SRC[0], hname, None)
+                pm = re.search(r"\(\s*([a-z_][a-z_0-9]*)\s*:", hsig)
+                if pm:
+                    v = classify_fill(hbody, field, value_ok, tgt=pm.group(1), depth=depth + 1)
+                    if v == "partial":
+                        return "partial"
+                    verdict = v if v in ("all",) else ("unknown" if verdict != "all" else verdict)
+                    continue
+            except rp.ParseError:
+                pass
         restricted = bool(re.search(r"\.take\(|\.skip\(|\.step_by\(|\[[^\]]*\.\.[^\]]*\]", txt))
         ok = False
         # forms over the whole storage
@@ -87,6 +104,7 @@ def fft_reset_stage(scratch, tier, log):
     """C10: reset() of the FFT adapters zeroes ALL per-channel storage and re-activates every channel."""
     obs = []
     src = scratch.read("synchro.rs")
+    HELPER_SRC[0] = rp.strip_tests(src)
     norm = lambda t: t.replace(" ", "")
     for T, fields in FFT_STORAGE.items():
         fn = T + "::reset"
